@@ -255,8 +255,8 @@ LOSSY = {("u64", "i64"), ("i64", "u64"), ("u64", "f64"), ("i64", "f64"), ("u64",
 
 
 def casts(r, crate):
-    table = load_table("casts.json")
-    used = {}
+    from ..report import Pool
+    pool = Pool(load_table("casts.json"), getattr(crate, "config", "default"))
     n = 0
     for fn in crate.fns:
         if not common.in_file(fn, "lexpr/src/parse/mod.rs", "lexpr/src/number.rs"):
@@ -276,14 +276,20 @@ def casts(r, crate):
                 if pair not in LOSSY:
                     continue
                 n += 1
-                key = "%s | %s->%s" % (fn.path, pair[0], pair[1])
-                used[key] = used.get(key, 0) + 1
-                ent = table.get(key)
-                if ent and used[key] <= ent["count"]:
-                    r.ok("%s (reviewed: %s)" % (key, ent["reason"]), fn, s.get("line"))
-                else:
+                detail = "%s->%s" % pair
+
+                def on_ok(ent, moved, fn=fn, s=s, detail=detail):
+                    r.ok("%s | %s (reviewed%s: %s)" % (fn.path, detail, " for %s, moved" % moved if moved else "", ent["reason"]),
+                         fn, s.get("line"))
+
+                def on_bad(fn=fn, s=s, pair=pair):
                     r.violation(fn.path, "cast:%s->%s" % pair,
                                 "%s: the lossy cast `as %s` from %s at line %s is not in the reviewed list "
                                 "(tables/casts.json): it can silently change a numeric value" % (fn.path, pair[1], pair[0], s.get("line")),
                                 fn.loc(s.get("line")))
+
+                pool.site(fn.path, detail, on_ok, on_bad)
+    pool.settle()
+    if pool.unused():
+        r.note("reviewed casts no longer present: %s" % sorted(pool.unused().items()))
     r.floor("lossy-casts", n)
